@@ -74,6 +74,8 @@ var _ = immutable.None[int]
 // idx (index bits as in the C09 harness: 2 = secondary index on User.age), n (documents, ages 0..3 or null)
 func VerifH_C07_Request() {
 	op, dir, n := vConfInt("op"), vConfInt("dir"), vConfInt("n")
+	// conf deleted: the request asks for deleted documents too (showDeleted), and each document may be a deleted one
+	showDeleted := vConfInt("deleted") != 0
 	e := qNewEnv(vConfInt("idx"))
 	ids := []string{qUserIDs[0], qUserIDs[1], "bae-00000000-0000-0000-0000-0000000000a2"}
 	type person struct {
@@ -89,7 +91,11 @@ func VerifH_C07_Request() {
 		} else {
 			f["age"] = ps[i].age
 		}
-		e.putDoc("User", ids[i], f)
+		if showDeleted && vChoose("is-deleted", 2) == 1 {
+			e.putDeletedDoc("User", ids[i], f)
+		} else {
+			e.putDoc("User", ids[i], f)
+		}
 	}
 	c, c2 := qSmall("c"), qSmall("c")
 	match := func(p person) bool {
@@ -122,6 +128,7 @@ func VerifH_C07_Request() {
 		}
 		sel.Filter = immutable.Some(request.Filter{Conditions: map[string]any{"age": map[string]any{names[op]: operand}}})
 	}
+	sel.ShowDeleted = showDeleted
 	limit, offset := 0, 0
 	if dir != 0 {
 		d := request.ASC
